@@ -20,17 +20,18 @@ MANIFEST = {
 THEOREMS = ["C02_totals_cover_positions", "C02_ledger_meaning", "C02_exact_deltas_and_dust", "C02_zero_totals_no_positions",
             "C02_initial_world", "C02_instruction_level",
             "C02_transfer_keeps_position_sums", "C02_close_removes_only_empty_positions",
-            "C02_purge_keeps_ledger", "C02_purge_effect_on_totals", "C02_deleverage_tx_keeps_ledger"]
+            "C02_purge_keeps_ledger", "C02_purge_effect_on_totals", "C02_deleverage_tx_keeps_ledger", "C02_close_bank_only_without_positions"]
 RULE = ("level B: operation sequences over 1-3 banks and 1-4 accounts on the real Bank + BankAccountWrapper (deposit/withdraw/"
         "borrow/repay/withdraw_all/repay_all/close/liquidation legs/accrue/socialise/claim/settle/sort); level C: instruction-handler "
         "sequences (deposit, withdraw(all), borrow, repay(all), close_balance, liquidate, bankruptcy, accrue, collect fees) by several "
         "users. Non-trivial = at least 3 successful share-moving operations; distinct = different case line")
 ASSUMPTIONS = [
-    "close_bank is not part of the Coq operation set; its precondition (zero totals) is covered by theorem C02_zero_totals_no_positions; purge_delev_balance is modelled (Deleverage.v dv_purge, tied by the delevsim suite) and covered by C02_purge_keeps_ledger / C02_purge_effect_on_totals; transfer_to_new_account and marginfi_account_close are modelled (AcctLifecycle.v) and covered by C02_transfer_keeps_position_sums / C02_close_removes_only_empty_positions; purge abandons liability dust of at most 0.0001 SHARES (the handler compares shares, not the amount, with ZERO_AMOUNT_THRESHOLD), i.e. up to 0.0001 x liability share value units",
+    "lending_pool_close_bank is modelled as a yes/no probe (h_close_bank_probe = its four guards; the harness runs the real instruction and puts the closed account back) and covered by C02_close_bank_only_without_positions; purge_delev_balance is modelled (Deleverage.v dv_purge, tied by the delevsim suite) and covered by C02_purge_keeps_ledger / C02_purge_effect_on_totals; transfer_to_new_account and marginfi_account_close are modelled (AcctLifecycle.v) and covered by C02_transfer_keeps_position_sums / C02_close_removes_only_empty_positions; purge abandons liability dust of at most 0.0001 SHARES (the handler compares shares, not the amount, with ZERO_AMOUNT_THRESHOLD), i.e. up to 0.0001 x liability share value units",
     "amounts passed to the wrapper are non-negative (they are u64 instruction arguments)",
 ]
 OBSERVATIONS = [
     "withdraw_all leaves the position's liability dust (< 0.0001) in total_liability_shares; repay_all and close_balance leave asset dust in total_asset_shares: the excess only grows",
+    "position counters can drift in the unchanged code: a depositor whose remaining position is below 0.0001 SHARES but above 0.0001 TOKENS (share value > 1) is un-counted by the partial withdrawal that left the dust and un-counted AGAIN by the following withdraw_all, so lending_position_count can reach 0 while another depositor still holds the bank's deposits (reproduced by the close-bank scenario of the hops generator, about one case in four of that scenario); lending_pool_close_bank is then refused only by its totals guard - the property holds, the counter guard alone would not be enough",
 ]
 ONE = G.ONE
 THR = 28147497671
